@@ -40,8 +40,8 @@ Section D.
       exists bs rest, queue s = bs :: rest /\ id = b_id (bs_batch bs)
                       /\ (length (b_events (bs_batch bs)) <= bs_processed bs)%nat.
   Proof.
-    intros s x. destruct x as [b0 | bid pos | | ]; simpl.
-    - unfold Processor.enqueue. destruct (stopped s); [exists []; split; [reflexivity | intros ? []]|].
+    intros s x. destruct x as [b0 | bid pos | | | | ]; simpl.
+    - unfold Processor.enqueue. destruct (quitf s || stopped s); [exists []; split; [reflexivity | intros ? []]|].
       destruct (_ || _); eexists [_]; (split; [reflexivity | intros id [H|[]]; discriminate]).
     - unfold arrive. destruct (stopped s); exists []; (split; [reflexivity | intros ? []]).
     - unfold Processor.consume. destruct (stopped s) eqn:Es; [exists []; split; [reflexivity | intros ? []]|].
@@ -70,9 +70,10 @@ Section D.
         intros o Ho Hd; destruct o; simpl in Hd; try contradiction;
           destruct Ho as [Ho|[Ho|Ho]]; [exact Ho | discriminate | discriminate].
     - unfold Processor.stop. destruct (stopped s); [exists []; split; [reflexivity | intros ? []]|].
-      set (s0 := match queue s with bs :: _ => pemit s (PAborted (b_id (bs_batch bs))) | [] => s end).
+      set (s0 := match queue s with bs :: _ => if quitf s then s else pemit s (PAborted (b_id (bs_batch bs))) | [] => s end).
       assert (E0 : exists n0, plog s0 = n0 ++ plog s /\ forall id, ~ In (PDone id) n0).
       { unfold s0. destruct (queue s); [exists []; split; [reflexivity | intros ? []]|].
+        destruct (quitf s); [exists []; split; [reflexivity | intros ? []]|].
         eexists [_]; split; [reflexivity | intros id [H|[]]; discriminate]. }
       destruct E0 as [n0 [E0 N0]].
       match goal with |- context [fold_left apply_out ?l ?sx] =>
@@ -82,6 +83,10 @@ Section D.
         simpl. rewrite <- app_assoc. reflexivity.
       + intros id [H|H]; [discriminate|]. exfalso. apply in_app_or in H. destruct H as [H|H]; [|exact (N0 id H)].
         eapply no_pdone_in; [exact F | | exact H]. intros o Ho Hd. destruct o; simpl in *; auto.
+    - unfold quit. destruct (stopped s); exists []; (split; [reflexivity | intros ? []]).
+    - unfold abort. destruct (stopped s || negb (quitf s)); [exists []; split; [reflexivity | intros ? []]|].
+      destruct (queue s); [exists []; split; [reflexivity | intros ? []]|].
+      eexists [_]; split; [reflexivity | intros id [H|[]]; discriminate].
   Qed.
 
   Definition DI (pre : list pstep) (s : pst) : Prop :=
